@@ -9,7 +9,7 @@ value of the menu B.  Every generator has a total order: a case is reproducible 
 import itertools
 
 INF = float("inf")
-METS = ["A", "B", "C"]
+METS = ["A", "B", "C", "D"]   # (the enumerated families use the first three; D is for hand-made shapes)
 
 BOUNDS_MENU = [(0, 10), (-10, 10), (0, 0), (2, 10), (-10, -2), (-10, 0), (3, 3), (0, INF), (-INF, INF), (0, 1000),
                (-INF, -2), (2, INF)]
